@@ -47,11 +47,16 @@ LEVEL_NOTE = ("Partial claim: C07's existential recovery sentence is supported b
               "whether a leader proposes depends on delivery order (DESIGN.md, C07).")
 
 
+NO_MODEL_RUNS = ("netfail",)
+
+
 def runs(tier, seed):
     k = 6 if tier == "thorough" else 1
     r = [("rec4-%d" % i, ["net", "-level", "ctrl", "-recover", "-seed", str(seed * 100 + i), "-n", str(10 * k), "-size", "4", "-steps", "80"]) for i in range(10)]
     r += [("rec7-%d" % i, ["net", "-level", "ctrl", "-recover", "-seed", str(seed * 100 + 40 + i), "-n", str(2 * k), "-size", "7", "-steps", "100"]) for i in range(5)]
     r += [("inst4-%d" % i, ["net", "-level", "inst", "-seed", str(seed * 100 + 70 + i), "-n", str(10 * k), "-size", "4"]) for i in range(1)]
+    # monitor only: every third timeout finds the network down (the model has no failing publish)
+    r += [("netfail-%d" % i, ["net", "-level", "ctrl", "-netfail", "-seed", str(seed * 100 + 80 + i), "-n", str(10 * k), "-size", "4", "-steps", "80"]) for i in range(2)]
     return r
 
 
